@@ -50,11 +50,11 @@ TIMEOUT = 600.0
 PER_SPEC = 10
 
 KINDS = ["reneg", "resub", "resub2", "swapadd", "swapmul", "tt", "mul1", "add0", "negneg", "resplit", "init_fresh", "init_repeat", "init_clash",
-         "custom", "keep", "asfn"]
+         "custom", "keep", "asfn", "asfn_diamond"]
 # kind -> what the host generator plants
 PLANT = {"reneg": "neg", "resub": "sub", "resub2": "sub", "swapadd": "add", "swapmul": "mul", "tt": "tt", "mul1": "mul1", "add0": "add0",
          "negneg": "negneg", "resplit": "split", "init_fresh": "sub", "init_repeat": "sub", "init_clash": "sub", "custom": "relu",
-         "keep": "neg", "asfn": "subrelu"}
+         "keep": "neg", "asfn": "subrelu", "asfn_diamond": "diamond"}
 STRATA = ["flat", "cf", "fn", "cf+fn", "cfonly"]   # cfonly: instances only inside If/Loop bodies, outer values named val_0/val_1
 CLASH = "c07_zero"
 
@@ -115,6 +115,10 @@ def pattern_ast(kind):
         return {"nodes": [N("Relu", [V("x")])], "outs": [["o", 0, 0]]}
     if kind == "asfn":
         return {"nodes": [N("Sub", [V("x"), V("y")]), N("Relu", [["o", 0, 0]])], "outs": [["o", 1, 0]]}
+    if kind == "asfn_diamond":
+        # a computed value with TWO users inside the pattern: the extracted function body must stay in graph order
+        return {"nodes": [N("Sub", [V("x"), V("y")]), N("Relu", [["o", 0, 0]]), N("Neg", [["o", 0, 0]]),
+                          N("Add", [["o", 1, 0], ["o", 2, 0]])], "outs": [["o", 3, 0]]}
     raise ValueError(kind)
 
 
@@ -170,6 +174,9 @@ def make_rule(kind):
         rep = lambda op, x, **_: op.Relu(x, _domain=c07_gen.CUSTOM_DOMAIN)  # noqa: E731
     elif kind == "asfn":
         rep = lambda op, x, y, **_: op.SubRelu(x, y, _domain="c07.fused")  # noqa: E731
+        kw["as_function"] = True
+    elif kind == "asfn_diamond":
+        rep = lambda op, x, y, **_: op.SubReluNeg(x, y, _domain="c07.fused")  # noqa: E731
         kw["as_function"] = True
     else:
         raise ValueError(kind)
@@ -461,7 +468,9 @@ def run_pair(p, seed, ev, viol):
         try:
             built = c07_gen.make_host(rng, PLANT[kind], n_nodes=rng.randint(2, 7), k_plants=(k if k < 3 else rng.randint(3, 5)),
                                       subgraphs="cf" in st, functions="fn" in st, nested_only=(st == "cfonly"),
-                                      clash_name=(CLASH if kind == "init_clash" else None), custom_fn=(kind == "custom"))
+                                      clash_name=(CLASH if kind == "init_clash" else None), custom_fn=(kind == "custom"),
+                                      prior_overload=({"asfn": "SubRelu", "asfn_diamond": "SubReluNeg"}[kind]
+                                                      if kind.startswith("asfn") and st != "cfonly" and rng.random() < 0.5 else None))
         except Exception as e:  # a generator bug must not be blamed on the repository
             hit("generator_error")
             ev.setdefault("_generr", f"{type(e).__name__}: {e}")
@@ -742,7 +751,7 @@ def _invalid_mech(msg, kind):
             # the clashing name belongs to a value of the original model: a value created by the replacement shadows it
             return "new_value_shadows_existing_name"
         return "value_name_reused_across_scopes"
-    if "no opset registered for domain" in m and kind == "asfn":
+    if "no opset registered for domain" in m and kind in ("asfn", "asfn_diamond"):
         return "extracted_function_without_opset_import"
     if "opset import" in m or "is used but not imported" in m or "no opset import" in m or "no opset registered" in m:
         return "opset_import_missing"
